@@ -1145,6 +1145,62 @@ fn family_accumulate(tier: Tier, sink: &mut Sink) {
     }
 }
 
+/// Sizes that collide in one derived quantity and differ in another: equal area / different shape,
+/// equal luma count / different chroma count, equal chroma planes / different luma, equal
+/// macroblock grid / different dimensions.
+pub fn colliding_sizes(std: bool) -> Vec<(u16, u16)> {
+    if std {
+        vec![(32, 16), (16, 32), (64, 8), (8, 64), (16, 16), (12, 4), (4, 12), (24, 8), (8, 24), (20, 20), (32, 32)]
+    } else {
+        vec![(32, 16), (16, 32), (64, 8), (8, 64), (6, 2), (3, 4), (4, 3), (2, 6), (12, 1), (1, 12), (15, 16), (16, 16), (16, 15), (15, 15), (17, 17), (32, 32), (31, 18)]
+    }
+}
+
+/// family 10: histories of picture sizes. Every ordered pair (A, B) of colliding sizes: pictures of
+/// size A (I; I,P; I,D; I,I), then an I picture of size B, then a predicted, disposable or intra
+/// picture of size B (whole, or cut after its first macroblock).
+fn family_size_history(tier: Tier, sink: &mut Sink) {
+    let _ = tier;
+    let a = |v: Vec<u8>| Arc::new(v);
+    let mut block = 0u64;
+    for s in [Stream::SorV0, Stream::SorV1, Stream::Std] {
+        let sizes = colliding_sizes(s == Stream::Std);
+        for &(wa, ha) in &sizes {
+            let mine = sink.begin(10, block);
+            block += 1;
+            if !mine {
+                continue;
+            }
+            for &(wb, hb) in &sizes {
+                let mut prefixes: Vec<(&str, Vec<Arc<Vec<u8>>>)> = vec![
+                    ("I(A)", vec![a(valid_i(s, wa, ha, 0))]),
+                    ("I(A),P(A)", vec![a(valid_i(s, wa, ha, 0)), a(valid_p(s, wa, ha, 1, 1))]),
+                    ("I(A),I(A)", vec![a(valid_i(s, wa, ha, 0)), a(valid_i(s, wa, ha, 1))]),
+                ];
+                if s != Stream::Std {
+                    prefixes.push(("I(A),D(A)", vec![a(valid_i(s, wa, ha, 0)), a(valid_p(s, wa, ha, 2, 1))]));
+                }
+                for (pname, pre) in prefixes {
+                    let mut hist = pre.clone();
+                    hist.push(a(valid_i(s, wb, hb, 2)));
+                    let types: &[u8] = if s == Stream::Std { &[0, 1] } else { &[0, 1, 2] };
+                    for &pt in types {
+                        let whole = if pt == 0 { valid_i(s, wb, hb, 3) } else { valid_p(s, wb, hb, pt, 3) };
+                        sink.case(s.opts()[0], &hist, &whole, &|| format!("size history {s:?}: {pname} with A={wa}x{ha}, I(B), then type-{pt} picture with B={wb}x{hb}"));
+                        // directly after the pictures of size A (no I picture of size B in between)
+                        sink.case(s.opts()[0], &pre, &whole, &|| format!("size history {s:?}: {pname} with A={wa}x{ha}, then type-{pt} picture with B={wb}x{hb}"));
+                    }
+                    // header and first macroblock only
+                    let (mbw, _) = mb_grid(wb, hb);
+                    let _ = mbw;
+                    let cut = encode_bytes(&Pic { hdr: stream_hdr(s, wb, hb, 1, 7, 4), mbs: vec![Mb::inter((1, -1))] });
+                    sink.case(s.opts()[0], &hist, &cut, &|| format!("size history {s:?}: {pname} with A={wa}x{ha}, I(B), then a P picture with B={wb}x{hb} ending after its first macroblock"));
+                }
+            }
+        }
+    }
+}
+
 /// family 7: every motion-vector differential pair on single- and four-macroblock predicted pictures
 fn family_vectors(tier: Tier, sink: &mut Sink) {
     let mut block = 0u64;
@@ -1187,7 +1243,7 @@ fn family_vectors(tier: Tier, sink: &mut Sink) {
 }
 
 pub fn families(tier: Tier, sink: &mut Sink) {
-    let fams: [(&str, fn(Tier, &mut Sink)); 8] = [("grammar", family_grammar), ("headers", family_headers), ("corruption", family_corruption), ("raw", family_raw), ("umv", family_umv), ("vectors", family_vectors), ("double-corruption", family_double_corruption), ("accumulate", family_accumulate)];
+    let fams: [(&str, fn(Tier, &mut Sink)); 9] = [("grammar", family_grammar), ("headers", family_headers), ("corruption", family_corruption), ("raw", family_raw), ("umv", family_umv), ("vectors", family_vectors), ("double-corruption", family_double_corruption), ("accumulate", family_accumulate), ("size-history", family_size_history)];
     for (name, f) in fams {
         let (t0, c0) = (std::time::Instant::now(), sink.cases);
         f(tier, sink);
@@ -1349,7 +1405,7 @@ pub fn run(tier: Tier) -> Report {
         rep.states.store(0, std::sync::atomic::Ordering::Relaxed);
     }
     rep.set_rule(
-        "decode_next_picture under catch_unwind (overflow checks on) in isolated single-threaded worker processes with a shared-memory journal, watchdog and address-space cap: (1) macroblock-token sequences of length 0..capacity+2 with at most d non-default letters (quick: d=2 for pictures of <= 2 macroblocks, d=1 otherwise; thorough: d=2 everywhere and d=3 for pictures of <= 2 macroblocks in two histories) over complete-macroblock alphabets (every MCBPC/CBPY codeword, stuffing, invalid prefixes, DQUANT, extreme/invalid MVDs, block letters: escapes 0/min/max per width, run overflow, INTRADC 0/128/255, invalid TCOEF) x 3 stream kinds x I/P/D x sizes x quantizers 1,31 x decoder histories x option sets x tails; (2) a header alphabet (zero/odd/huge/reserved sizes, all types, marker errors, PLUSPTYPE mode patterns) x bodies x histories, truncated at every byte; (3) every single-byte substitution, deletion and duplication of base pictures; (4) all byte strings of <= 2 (thorough 3) bytes alone and all 2-byte strings after headers; (6) unrestricted-motion-vector accumulations; (9) blocks whose escape runs / event counts accumulate past 2^8, 2^12 and 2^16; (8, thorough) every adjacent byte pair over all 65536 values and every pair of positions over a 16-value alphabet on tiny base pictures; (7) every 64x64 differential pair (one- and four-vector) at every macroblock position of small predicted pictures; plus labelled random sampling; inputs declaring more than 2^22 pixels are excluded by an exact header pre-filter; non-trivial = inputs that begin with a start code",
+        "decode_next_picture under catch_unwind (overflow checks on) in isolated single-threaded worker processes with a shared-memory journal, watchdog and address-space cap: (1) macroblock-token sequences of length 0..capacity+2 with at most d non-default letters (quick: d=2 for pictures of <= 2 macroblocks, d=1 otherwise; thorough: d=2 everywhere and d=3 for pictures of <= 2 macroblocks in two histories) over complete-macroblock alphabets (every MCBPC/CBPY codeword, stuffing, invalid prefixes, DQUANT, extreme/invalid MVDs, block letters: escapes 0/min/max per width, run overflow, INTRADC 0/128/255, invalid TCOEF) x 3 stream kinds x I/P/D x sizes x quantizers 1,31 x decoder histories x option sets x tails; (2) a header alphabet (zero/odd/huge/reserved sizes, all types, marker errors, PLUSPTYPE mode patterns) x bodies x histories, truncated at every byte; (3) every single-byte substitution, deletion and duplication of base pictures; (4) all byte strings of <= 2 (thorough 3) bytes alone and all 2-byte strings after headers; (6) unrestricted-motion-vector accumulations; (9) blocks whose escape runs / event counts accumulate past 2^8, 2^12 and 2^16; (10) size histories: every ordered pair (A, B) of 17 (standard mode: 11) sizes that collide in one derived quantity and differ in another (equal area / other shape, equal luma count / other chroma count, equal chroma planes, equal macroblock grid) as I(A) | I(A),P(A) | I(A),I(A) | I(A),D(A), then optionally I(B), then an I, P or disposable picture of size B, whole or cut after its first macroblock; (8, thorough) every adjacent byte pair over all 65536 values and every pair of positions over a 16-value alphabet on tiny base pictures; (7) every 64x64 differential pair (one- and four-vector) at every macroblock position of small predicted pictures; plus labelled random sampling; inputs declaring more than 2^22 pixels are excluded by an exact header pre-filter; non-trivial = inputs that begin with a start code",
     );
     rep.sample(json!({"family": "grammar", "case": "Sorenson v1 P 32x16 q=31 after [I 32x32]: [inter mv0, blk0 escape-max, inter mv0] + following start code"}));
     rep.sample(json!({"family": "headers", "case": "Sorenson v0 size 0x16 type 0, body = 1 default macroblock, after [I 16x16, D 16x16]"}));
